@@ -253,4 +253,35 @@ theorem enumLoad_dump (ks : List Word) (h : kwDistinct ks = true) (v : Nat) (hv 
       show enumLoad (k :: ks) (ks.getD v []) = some (v + 1)
       simp only [enumLoad, hne, if_false, this, Option.map_some]
 
+/-! ## one-word texts, clean receivers -/
+
+/-- a one-word text -/
+def loadWord (C : Codec) (s : List Char) : Option C.α :=
+  match words s with
+  | [w] => C.parse w
+  | _ => none
+
+theorem compat_of_clean (t : Table) (p s : Nat) (h : (noClearBits t).all (fun b => !p.testBit b) = true) :
+    compat t p s = true := by
+  rw [compat_iff]
+  intro b hb hp
+  have := (List.all_eq_true.1 h) b hb
+  rw [hp] at this
+  exact Bool.noConfusion this
+
+theorem words_word (w : Word) (h : isWordB w = true) : words w = [w] := by
+  obtain ⟨_, hall⟩ := (isWordB_iff w).1 h
+  have := wordsAux_word w [] [] hall
+  rw [List.append_nil] at this
+  unfold words
+  rw [this]
+  cases hw : w with
+  | nil => subst hw; simp [isWordB] at h
+  | cons a as => simp [wordsAux]
+
+theorem loadWord_print (C : Codec) (a : C.α) : loadWord C (C.print a) = some a := by
+  unfold loadWord
+  rw [words_word _ (C.word a)]
+  exact C.rt a
+
 end PPLV.Dump
